@@ -1,6 +1,6 @@
 (* GENERATED on every run by engines/cli_eng.py from crux_cli::codegen::verif::verif_run(crux_platform): do not edit. *)
 From Coq Require Import List String NArith.
-From Crux Require Import Cli.Format.
+From Crux Require Import Cli.Format Cli.Pipeline.
 Import ListNotations.
 Open Scope string_scope.
 
@@ -22,5 +22,7 @@ Definition f_root : list item := [i3; i4].
 Definition f_field : edges := [(i2, i0); (i2, i1); (i3, i6); (i8, i7)].
 Definition f_variant : edges := [].
 Definition f_type : edges := [(i5, i3); (i7, i4); (i9, i4); (i10, i8)].
+Definition the_dump : dump := mkDump items f_root f_field f_variant f_type.
+Definition crates : list string := ["crux_platform"].
 Definition real_containers : list (string * container) := [("PlatformRequest", CUnitStruct); ("PlatformResponse", (CNewTypeStruct (FPrim PStr))); ("Request", (CStruct [("id", (FPrim PU32)); ("effect", (FTypeName "Effect"))]))].
 Definition real_registry : registry := [("PlatformRequest", CUnitStruct); ("PlatformResponse", (CNewTypeStruct (FPrim PStr))); ("Request", (CStruct [("id", (FPrim PU32)); ("effect", (FTypeName "Effect"))]))].
